@@ -157,7 +157,7 @@ def split_trace(trace_path, max_chunks):
     if not starts or starts[0] != 0:
         starts = [0] + starts
     total = sum(len(l) for l in lines)
-    target = max(total // max_chunks, 200_000)
+    target = max(total // max_chunks, 100_000)
     chunks, cur_start, acc = [], 0, 0
     for k, st in enumerate(starts):
         end = starts[k + 1] if k + 1 < len(starts) else len(lines)
@@ -197,7 +197,11 @@ def validate_chunk(name, trace_path, timeout):
     return verdict, None, parse_mc_stats(out)
 
 
-def validate_trace(name, trace_path, timeout=7200, par=8):
+from concurrent.futures import ThreadPoolExecutor as _TPE
+CHUNK_POOL = _TPE(max_workers=int(os.environ.get("VERIF_TLC_PROCS", "14")))   # one single-worker TLC process per chunk
+
+
+def validate_trace(name, trace_path, timeout=7200, par=10):
     """TLC validates the trace against spec/TraceNdInterp.tla; scenario groups (separated by Reset events,
     which clear all specification state) are validated by parallel TLC processes"""
     from concurrent.futures import ThreadPoolExecutor
@@ -205,8 +209,7 @@ def validate_trace(name, trace_path, timeout=7200, par=8):
     chunks = split_trace(trace_path, par)
     if not chunks:
         tool_error(f"empty trace {trace_path}")
-    with ThreadPoolExecutor(max_workers=par) as ex:
-        results = list(ex.map(lambda c: validate_chunk(f"{name}-{os.path.basename(c[0])}", c[0], timeout), chunks))
+    results = list(CHUNK_POOL.map(lambda c: validate_chunk(f"{name}-{os.path.basename(c[0])}", c[0], timeout), chunks))
     merged = {"consumed": 0, "total": 0, "bad": [], "cov": {}, "head": {}}
     states = 0
     for (path, off), (verdict, err, st) in zip(chunks, results):
@@ -334,9 +337,8 @@ def main():
 
         known = [k for k in load_known() if k.get("property") == prop]
         from concurrent.futures import ThreadPoolExecutor
-        npar = max(2, 12 // max(1, len(traces)))
         with ThreadPoolExecutor(max_workers=max(1, len(traces))) as ex:
-            tv_results = list(ex.map(lambda lp: validate_trace(f"{prop}-tv-{lp[0]}", lp[1], par=npar), traces))
+            tv_results = list(ex.map(lambda lp: validate_trace(f"{prop}-tv-{lp[0]}", lp[1]), traces))
         for (label, path), (verdict, st, dt) in zip(traces, tv_results):
             tv_states += st["distinct"] if st else 0
             tv_events += verdict["total"]
